@@ -183,6 +183,18 @@ class Gen:
             decl.append({"t": "fock", "name": "F0", "init": self.local_init("F")})
         if self.p(o.get("p_lone", 0.25)):
             decl.append({"t": "pol", "name": "P0", "init": self.local_init("P")})
+        if self.p(o.get("collide", 0.12)):
+            # colliding values: every mode holds the same state, every polarization the same state (distinct objects,
+            # numerically equal contents - labels most of the time, since the library compares those by value)
+            fi = self.local_init("F") if self.p(0.3) else {"k": "label", "n": int(r.integers(0, 3)), "dims": None}
+            pi = self.local_init("P") if self.p(0.3) else {"k": "label", "l": self.ch(["H", "V", "R", "L"])}
+            for it in decl:
+                if it["t"] == "env":
+                    it["fock"], it["pol"] = dict(fi), dict(pi)
+                elif it["t"] == "fock":
+                    it["init"] = dict(fi)
+                elif it["t"] == "pol":
+                    it["init"] = dict(pi)
         return decl
 
     # ------------------------------------------------------------------ views of the current world
@@ -619,7 +631,7 @@ class Gen:
         else:
             g = v["member_of"].get(first)
             pool = [n for n in lv if v["member_of"].get(n) == g and n != first]
-            k = int(self.rng.integers(0, min(2, len(pool)) + 1))
+            k = min(len(pool), int(self.ch([0, 1, 1, 2, 2, 3])))
             tg = [first] + [str(t) for t in self.rng.choice(pool, size=k, replace=False)] if k else [first]
             self.rng.shuffle(tg)
             st["targets"] = [str(t) for t in tg]
